@@ -60,9 +60,11 @@ def run(c, chk):
     try:
         resolver = set(c.owners(_c11.step_loop(c, c.need('cfg_getopt_secidx'))[0].name))     # the path resolver converts an index qualifier, not a value
     except report.Broken:
-        resolver = set()
+        resolver = None
     others = [(f.name, n) for f in c.confuse.funcs.values() for n in ('strtol', 'strtod', 'atoi', 'atol', 'atof', 'strtoul')
-              for _ in f.calls(n) if not (c.owners(f.name) <= ({'cfg_setopt', 'cfg_getopt_secidx'} | resolver))]
+              for _ in f.calls(n) if not (c.owners(f.name) <= ({'cfg_setopt', 'cfg_getopt_secidx'} | (resolver or set())))]
+    if others and resolver is None:
+        raise report.Broken('a conversion outside cfg_setopt() cannot be attributed: the path resolver (which converts an index qualifier) was not found')
     for fname, n in others:
         chk.fail('R4.5', 'stray-conversion:%s:%s' % (fname, n), c.where(c.func(fname)), '%s() converts text with %s() outside the checked conversion arm' % (fname, n))
 
